@@ -123,6 +123,30 @@ def point_sets(draw, length, nmin=2, nmax=30, two_lists=True, n2max=30, families
             d2 = math.asin(sd2)
             r2 = b[0] + math.degrees(math.atan2(math.sin(brg) * math.sin(s_) * math.cos(d1), math.cos(s_) - math.sin(d1) * sd2))
             p2.append((_wrap(r2), sgn * _clipdec(math.degrees(d2))))
+    elif fam == 'slice-edge':
+        # for lengths >= 22.5 deg and the default chunk size (4 L >= 90 deg) the chunk grid is clamped to both poles; with first-list
+        # declinations inside +-30 deg it has three slices with edges at +-30 deg, and the RA cells of the middle slice end on
+        # multiples of 60 deg.  First-list points sit just inside that slice at its most polar declination next to such RA edges,
+        # their partners at the same declination a stated fraction of L away across the edge: the place where the RA margin of the
+        # chunk assignment has to be exact (marginSize/cos(dec) is tens of degrees here)
+        p1, p2 = [], []
+        for k in range(max(n1 // 2, 1)):
+            sgn = draw(st.sampled_from([1, -1]))
+            d = sgn * (30.0 - draw(st.sampled_from([1e-9, 0.01, 0.3, 1e-9])))
+            edge = 60.0 * draw(st.integers(0, 5))
+            side = draw(st.sampled_from([1, -1]))
+            eps = draw(st.sampled_from([1e-6, 1e-3, 0.2]))
+            a = (_wrap(edge + side * eps), d)
+            f = draw(st.sampled_from([0.996, 0.998, 0.9995, 0.99, 1.002, 0.9]))
+            dra = 2 * math.degrees(math.asin(min(1.0, math.sin(math.radians(f * L) / 2) / math.cos(math.radians(d)))))
+            b = (_wrap(a[0] - side * dra), d)
+            p1.append(a)
+            p2.append(b)
+        for _ in range(n1 - len(p1)):
+            p1.append((_wrap(180.0 * (1 + draw(unitf))), 29.0 * draw(unitf)))
+        if not two_lists:
+            p1 = list(draw(st.permutations(p1 + p2)))
+            p2 = []
     elif fam in ('pole-exact', 'pole-near'):
         # one or two points exactly on a pole (dec = +-90, any RA) and the rest on small circles around it whose radius is a
         # stated multiple of the length; separations from the pole are exactly those radii
@@ -134,7 +158,7 @@ def point_sets(draw, length, nmin=2, nmax=30, two_lists=True, n2max=30, families
                 ra = _wrap(180.0 * (1 + draw(unitf)))
                 if k < k_on_pole:
                     # exactly on the pole, or (pole-near, also valid where |Dec| < 90 is required) a hair away from it
-                    pts.append((ra, sgn * (90.0 if fam == 'pole-exact' else 90.0 - draw(st.sampled_from([1e-13, 1e-9, 1e-6, 2e-5])))))
+                    pts.append((ra, sgn * (90.0 if fam == 'pole-exact' else 90.0 - draw(st.sampled_from([1.4210854715202004e-14, 1e-13, 1e-9, 1e-6, 2e-5])))))
                 else:
                     f = draw(st.sampled_from([0.5, 0.9, 0.99, 1.01, 1.5, 0.3, 3.0, 7.0]))
                     pts.append((ra, sgn * max(0.0, 90.0 - f * L)))
